@@ -18,7 +18,7 @@ static int is_custom(char k) { return k == 'S' || k == 'C' || k == 'N' || k == '
 static int is_serial_kind(char k) { return k == 'S' || k == 'I' || k == 'W' || k == 'M'; }
 static int op_is_sync(char o) { return o == 's' || o == 'B' || o == 'w' || o == 'A' || o == '3'; }
 static int op_is_barrier(char o) { return o == 'b' || o == 'B' || o == 'k'; }
-static int op_is_item(char o) { return o != 'U' && o != 'R' && o != 'z'; }
+static int op_is_item(char o) { return o != 'U' && o != 'R' && o != 'z'; }   /* 'r' is an item */
 static int op_iters(char o) { return o == 'A' ? 2 : o == '3' ? 3 : 0; }
 
 int qp_parse(const char *text, qprog *p)
@@ -122,6 +122,20 @@ static void yitem_fn(void *ctx)
 	vx_ev(EV_END, id, 0);
 	g_ended[id] = 1; g_items_ended++;
 }
+static void ritem_fn(void *ctx)
+{
+	// an item that suspends and resumes its OWN queue from inside its body: it must keep the queue to itself until it returns
+	int id = (int)(intptr_t)ctx;
+	int t = (id - 1) / 16, k = (id - 1) % 16;
+	dispatch_queue_t q = Q[g_p->ops[t][k].q];
+	vx_ev(EV_START, id, 0);
+	dispatch_suspend(q);
+	dispatch_resume(q);
+	vx_point();
+	if (g_p->slow) vx_sleep_ns(1 * MS);
+	vx_ev(EV_END, id, 0);
+	g_ended[id] = 1; g_items_ended++;
+}
 static void apply_fn(void *ctx, size_t i) { body((int)(intptr_t)ctx + 1000 * ((int)i + 1)); }
 static void warm_fn(void *ctx) { *(int *)ctx = 1; }
 
@@ -136,6 +150,7 @@ static void do_ops(int t)
 		switch (o->op) {
 		case 'a': case 'p': dispatch_async_f(q, ctx, item_fn); break;
 		case 'x': dispatch_async_f(q, ctx, xitem_fn); break;
+		case 'r': dispatch_async_f(q, ctx, ritem_fn); break;
 		case 'y': dispatch_async_f(q, ctx, yitem_fn); break;
 		case 'b': dispatch_barrier_async_f(q, ctx, item_fn); break;
 		case 'g': dispatch_group_async_f(g_group, q, ctx, item_fn); break;
